@@ -143,6 +143,7 @@ Section glue.
   Definition parse_files_the_new_spawn (l : list gstmt) : bool :=
     match l with
     | [_; _; _; GAssignSpawn; GSetItem _ k v; GAddTarget (GTCur _) _] => bool_decide (k = cn) && bool_decide (v = ws)
+    | [_; _; _; GAssignSpawn; GAddTarget (GTCur _) _; GSetItem _ k v] => bool_decide (k = cn) && bool_decide (v = ws)
     | _ => false
     end.
   Definition parse_spawn_ok (l : list gstmt) : bool := parse_drops_the_placeholder l && parse_files_the_new_spawn l.
